@@ -93,7 +93,7 @@ CLAIMED = {
     "C18": (
         "abstract interpretation of the sequencer with recorded hooks and a real observer (dispatch inlined) on bar/track shapes with symbolic pitches, channels, velocities, values and tempo, compared with an event model; symbolic evaluation of the control-change guards; registry / message-table / instrument-announcement evaluation; mutation-while-iterating lint",
         "Static: for every bar shape (rest, 1-2 notes, tempo-changing container; 1-4 entries) play_Bar emits per sounding note one play_event(pitch+12, the note's channel and velocity), then sleep(240/(bpm*value)) with the tempo of that entry, then one stop_event with the same pitch and channel; rests only sleep; the final tempo is returned and threaded through play_Track; play_Bars on seven shapes of parallel full bars with equal rhythms (1-3 bars, tempo changes in any bar) emits per step every bar's notes, applies that step's tempo changes (last bar wins), sleeps once and stops every bar's notes; the observer's low-level stream equals the hook stream event by event; attach de-duplicates, detach removes, every listener is notified; control changes outside 0..128 (either argument, either side) return False and emit nothing, inside they emit once; every message constant is distinct and reaches the handler named for it with the keys the sequencer sends; play_Tracks announces one instrument per track on its channel before playing bars together, play_Composition defaults to channels 1..n; no loop mutates the list it iterates.",
-        "Not decided: the parallel scheduler of play_Bars on unequal rhythms or bars that are not full. Trusted: CPython ast, abstract evaluator (variants/c18.py), event model in rules/c18.py.",
+        "play_Bars with different rhythms in parallel bars is decided on four shapes against a time-line model (every entry started once and stopped once at its own boundaries, sleeps along the union of the time lines). Not decided: rhythms outside the eleven shapes, bars that are not full. Trusted: CPython ast, abstract evaluator (variants/c18.py), event model in rules/c18.py.",
         "DESIGN.md section 2, C18"),
     "C19": (
         "abstract interpretation of the exporters: fold / count-down summaries of LilyPond pitch rendering; evaluation of the LilyPond container/bar/track/composition renderers on shapes with an independent subset reader decoding the produced text; evaluation of the MusicXML builders over an abstract DOM with move-on-append semantics and decoding of the resulting tree",
